@@ -5,6 +5,7 @@
 
 use crate::Ctx;
 use crate::out::Sink;
+use crate::hexpr::RESERVED;
 use crate::rng::Rng;
 use crate::rt::{Out, RVal, Sess, cell_fingerprint};
 use blots_core::heap::HeapValue;
@@ -550,6 +551,28 @@ pub fn run(ctx: &Ctx, sink: &mut Sink) {
         run_sequence(sink, &seq, &format!("seq|{}|{}", max_len + 1, code));
     }
     sink.count("exhaustive_sequence_length", max_len as u64);
+    // ---- every built-in function name, every reserved word, `inputs` and `constants`: never bound at top level, in any form
+    if ctx.shard_i == 0 {
+        let mut names: Vec<String> = blots_core::functions::BuiltInFunction::all().iter().map(|b| b.name().to_string()).collect();
+        names.extend(RESERVED.iter().map(|s| s.to_string()));
+        names.push("inputs".to_string());
+        names.push("constants".to_string());
+        for name in names.iter() {
+            for form in ["{} = 5", "output {} = 5", "{} = x => x", "zz_other = ({} = 5)", "{} = null"] {
+                let sess = Sess::new();
+                let before: Vec<String> = env_map(&sess).keys().cloned().collect();
+                let src = form.replace("{}", name);
+                let out = sess.eval(&src);
+                let after = env_map(&sess);
+                sink.case(&format!("forbidden|{}", src), true);
+                let bound = after.keys().any(|k| k == name && !before.contains(k));
+                if out.is_ok() || bound {
+                    sink.viol(&format!("forbidden-name-bound name={}", name), "a keyword / built-in / inputs / constants name was bound at top level", json!({"statement": src, "succeeded": out.is_ok(), "bound_afterwards": bound}));
+                }
+            }
+        }
+        sink.count("forbidden_names_tried", names.len() as u64);
+    }
     // ---- random longer sessions on 6 names
     let sessions = ctx.budget(1500, 30_000);
     let names = ["a", "b", "c", "d", "f", "g"];
